@@ -362,6 +362,30 @@ func RandLocIn(r *rand.Rand, depth, n int) *oracle.Loc {
 	return l
 }
 
+// LaterDivision returns a division code that the GenBank release notes list after div ("" if there is none).
+func LaterDivision(r *rand.Rand, div string) string {
+	for i, d := range gbDivisions {
+		if d == div && i < len(gbDivisions)-1 {
+			return gbDivisions[i+1+r.Intn(len(gbDivisions)-i-1)]
+		}
+	}
+	return ""
+}
+
+// AnyDivision draws a division code.
+func AnyDivision(r *rand.Rand) string { return gbDivisions[r.Intn(len(gbDivisions))] }
+
+// FirstDivisionIn returns the code listed first in the GenBank release notes among div (if not empty) and the
+// codes that occur, in upper case, in name; div if none occurs.
+func FirstDivisionIn(name, div string) string {
+	for _, d := range gbDivisions {
+		if d == div || strings.Contains(name, d) {
+			return d
+		}
+	}
+	return div
+}
+
 // RandGBRecord draws an abstract record with a sequence of length seqLen.
 func RandGBRecord(r *rand.Rand, seqLen int, maxFeatures int, maxText int) *GBRecord {
 	rec := &GBRecord{}
@@ -378,6 +402,13 @@ func RandGBRecord(r *rand.Rand, seqLen int, maxFeatures int, maxText int) *GBRec
 		// spelling of a molecule type
 		word := []string{"dna", "mrna", "trna", "rrna", "rna"}[r.Intn(5)]
 		rec.Name = []string{word, word + "-" + strings.ToLower(RandWordAlnum(r, 3)), strings.ToLower(RandWordAlnum(r, 4)) + "." + word, word + ".1"}[r.Intn(4)]
+	}
+	if r.Intn(25) == 0 {
+		// constructs named after what was done to them: the name holds a topology word inside a longer word
+		// (linearized_puc19, circular_permutant, nonlinear_x), whatever the topology stated later on the line
+		word := []string{"linear", "circular"}[r.Intn(2)]
+		tail := strings.ToLower(RandWordAlnum(r, 2+r.Intn(5)))
+		rec.Name = []string{word + "ized_" + tail, word + "_" + tail, "non" + word + "_" + tail, tail + "_" + word + "ised", tail + word}[r.Intn(5)]
 	}
 	if r.Intn(30) == 0 {
 		// preps and exports named after the day they were made: a date inside the (lower-case) name
